@@ -139,8 +139,12 @@ async def check_case(case, rec, ctx):
         executed = list(dict.fromkeys(result.commands))
         unjustified = cone_violations(executed, edited, before_tables, result.tables)
         if unjustified:
+            sig = f"{PROPERTY}/command-outside-cone"
+            if all(_dynamic_input_transiently_detached(s_, executed, before_tables)
+                   for s_ in unjustified):
+                sig = f"{PROPERTY}/rerun-of-step-whose-dynamic-input-was-transiently-detached"
             raise Violation(
-                f"{PROPERTY}/command-outside-cone",
+                sig,
                 f"after editing only {sorted(edited)}, these steps ran without justification: "
                 f"{unjustified}; all executed: {executed}",
             )
@@ -170,6 +174,32 @@ def _apply_source_edits(old_spec, new_spec):
                 os.makedirs(parent, exist_ok=True)
             with open(path, "w") as fh:
                 fh.write(content)
+
+
+def _dynamic_input_transiently_detached(label, executed, tables):
+    """The step has an amended input whose producer is declared (directly or through sub-plans)
+    by an executed plan step, so the input was detached while that plan was being rerun."""
+    nodes = {n["i"]: n for n in tables["node"]}
+    by_label = {n["label"]: n["i"] for n in tables["node"] if n["kind"] == "step"}
+    dynamic = {d["i"] for d in tables["dynamic_dep"]}
+    if label not in by_label:
+        return False
+    me = by_label[label]
+    producers = {}
+    for dep in tables["dependency"]:
+        if nodes[dep["source"]]["kind"] == "step":
+            producers[dep["sink"]] = dep["source"]
+    for dep in tables["dependency"]:
+        if dep["sink"] == me and dep["i"] in dynamic:
+            node = producers.get(dep["source"])
+            while node is not None:
+                creator = nodes[node]["creator"]
+                if creator is None or nodes[creator]["kind"] != "step":
+                    break
+                if nodes[creator]["label"] in executed:
+                    return True
+                node = creator
+    return False
 
 
 def cone_violations(executed, edited, before, after):
